@@ -182,35 +182,87 @@ theorem mixed_result_kind (a n : Int) (v : V) :
     | (simp only [bt, btD] at h; obtain ⟨y, _, hy⟩ := map_ok _ _ _ h; exact ⟨y, hy⟩)
     | (simp only [dtAbs, htAbs] at h; split at h <;> first | (injection h with h; exact ⟨_, h.symm⟩) | cases h)
 
-/-- comparisons with a datetime.timedelta (promoted to bintime) or a hightime.timedelta (bintime
-    promoted to hightime): whenever they return at all, exactly one of <, ==, > holds -/
+/-- exactly one of three booleans -/
+def exactlyOne (x y z : Bool) : Bool := (x && !y && !z) || (!x && y && !z) || (!x && !y && z)
+
+/-- on two integers `<`, `==`, `>` always answer, and exactly one of them with True -/
+theorem cmpInt_trichotomy (a b : Int) :
+    ∃ x y z, cmpInt .lt a b = .ok (.bool x) ∧ cmpInt .eq a b = .ok (.bool y) ∧ cmpInt .gt a b = .ok (.bool z)
+      ∧ exactlyOne x y z = true := by
+  refine ⟨decide (a < b), decide (a = b), decide (b < a), rfl, rfl, rfl, ?_⟩
+  unfold exactlyOne
+  rcases Int.lt_trichotomy a b with h | h | h <;> simp [h] <;> omega
+
+/-- the hightime comparison (`_compare_hightime_*`) is an integer comparison of some pair, whether or not the bintime value fits
+    hightime's range -/
+theorem cmpHt_is_cmpInt (p : Except PyErr Int) (t o : Int) : ∃ u v, ∀ op, cmpHt op p t o = cmpInt op u v := by
+  cases p with
+  | ok q => exact ⟨q, o, fun _ => rfl⟩
+  | error e => exact ⟨if t < 0 then -1 else 1, 0, fun _ => rfl⟩
+
+/-- comparisons of a bintime value with a hightime value ALWAYS answer - for every 128-bit tick count, also one far outside
+    hightime's range - and exactly one of <, ==, > holds (timedeltas and datetimes) -/
+theorem mixed_cmp_ht_total (a n : Int) :
+    (∃ x y z, binop .lt (.btTd a) (.htTd n) = .ok (.bool x) ∧ binop .eq (.btTd a) (.htTd n) = .ok (.bool y) ∧
+        binop .gt (.btTd a) (.htTd n) = .ok (.bool z) ∧ exactlyOne x y z = true) ∧
+    (∃ x y z, binop .lt (.btDt a) (.htDt n) = .ok (.bool x) ∧ binop .eq (.btDt a) (.htDt n) = .ok (.bool y) ∧
+        binop .gt (.btDt a) (.htDt n) = .ok (.bool z) ∧ exactlyOne x y z = true) := by
+  constructor
+  · obtain ⟨u, v, h⟩ := cmpHt_is_cmpInt (htOfBt a) a n
+    obtain ⟨x, y, z, h1, h2, h3, h4⟩ := cmpInt_trichotomy u v
+    refine ⟨x, y, z, ?_, ?_, ?_, h4⟩ <;> simp only [binop, tdOp, isCmp, if_true, h] <;> assumption
+  · obtain ⟨u, v, h⟩ := cmpHt_is_cmpInt (htOfBtDt a) a n
+    obtain ⟨x, y, z, h1, h2, h3, h4⟩ := cmpInt_trichotomy u v
+    refine ⟨x, y, z, ?_, ?_, ?_, h4⟩ <;> simp only [binop, dtOp, isCmp, if_true, h] <;> assumption
+
+/-- a bintime value beyond hightime's range is beyond every hightime value: positive ⇒ greater, negative ⇒ less, never equal -/
+theorem mixed_cmp_ht_out_of_range (a n : Int) (e : PyErr) (h : htOfBt a = .error e) :
+    binop .eq (.btTd a) (.htTd n) = .ok (.bool false) ∧
+    binop .lt (.btTd a) (.htTd n) = .ok (.bool (decide (a < 0))) ∧
+    binop .gt (.btTd a) (.htTd n) = .ok (.bool (decide (¬ a < 0))) := by
+  simp only [binop, tdOp, isCmp, if_true, cmpHt, h, cmpInt, cmpBool]
+  by_cases ha : a < 0 <;> simp [ha]
+
+/-- comparisons with a datetime.timedelta / datetime (promoted to bintime): whenever the promotion succeeds (it does for every
+    value of those types), exactly one of <, ==, > holds; and for hightime operands the same statement, now implied by
+    `mixed_cmp_ht_total` -/
 theorem mixed_cmp_trichotomy (a n : Int) (x y z : Bool) :
     (binop .lt (.btTd a) (.dtTd n) = .ok (.bool x) → binop .eq (.btTd a) (.dtTd n) = .ok (.bool y) →
-      binop .gt (.btTd a) (.dtTd n) = .ok (.bool z) →
-      (x && !y && !z) || (!x && y && !z) || (!x && !y && z) = true) ∧
+      binop .gt (.btTd a) (.dtTd n) = .ok (.bool z) → exactlyOne x y z = true) ∧
     (binop .lt (.btTd a) (.htTd n) = .ok (.bool x) → binop .eq (.btTd a) (.htTd n) = .ok (.bool y) →
-      binop .gt (.btTd a) (.htTd n) = .ok (.bool z) →
-      (x && !y && !z) || (!x && y && !z) || (!x && !y && z) = true) ∧
+      binop .gt (.btTd a) (.htTd n) = .ok (.bool z) → exactlyOne x y z = true) ∧
     (binop .lt (.btDt a) (.dtDt n) = .ok (.bool x) → binop .eq (.btDt a) (.dtDt n) = .ok (.bool y) →
-      binop .gt (.btDt a) (.dtDt n) = .ok (.bool z) →
-      (x && !y && !z) || (!x && y && !z) || (!x && !y && z) = true) ∧
+      binop .gt (.btDt a) (.dtDt n) = .ok (.bool z) → exactlyOne x y z = true) ∧
     (binop .lt (.btDt a) (.htDt n) = .ok (.bool x) → binop .eq (.btDt a) (.htDt n) = .ok (.bool y) →
-      binop .gt (.btDt a) (.htDt n) = .ok (.bool z) →
-      (x && !y && !z) || (!x && y && !z) || (!x && !y && z) = true) := by
-  refine ⟨?_, ?_, ?_, ?_⟩ <;> intro h1 h2 h3 <;>
-    simp only [binop, tdOp, dtOp, isCmp, if_true] at h1 h2 h3 <;>
-    obtain ⟨b1, e1, h1⟩ := bind_ok' _ _ _ h1 <;>
-    obtain ⟨b2, e2, h2⟩ := bind_ok' _ _ _ h2 <;>
-    obtain ⟨b3, e3, h3⟩ := bind_ok' _ _ _ h3 <;>
-    rw [e1] at e2 e3 <;> injection e2 with e2 <;> injection e3 with e3 <;> subst e2 <;> subst e3 <;>
-    simp only [cmpInt, cmpBool] at h1 h2 h3 <;>
-    injection h1 with h1 <;> injection h2 with h2 <;> injection h3 with h3 <;>
-    injection h1 with h1 <;> injection h2 with h2 <;> injection h3 with h3 <;>
-    subst h1 <;> subst h2 <;> subst h3
-  all_goals
-    first
-    | (rcases Int.lt_trichotomy a b1 with h | h | h <;> simp [h] <;> omega)
-    | (rcases Int.lt_trichotomy b1 n with h | h | h <;> simp [h] <;> omega)
+      binop .gt (.btDt a) (.htDt n) = .ok (.bool z) → exactlyOne x y z = true) := by
+  have hdt : ∀ (r : Except PyErr Int) (x y z : Bool),
+      (r.bind fun b => cmpInt .lt a b) = .ok (.bool x) → (r.bind fun b => cmpInt .eq a b) = .ok (.bool y) →
+      (r.bind fun b => cmpInt .gt a b) = .ok (.bool z) → exactlyOne x y z = true := by
+    intro r x y z h1 h2 h3
+    obtain ⟨b1, e1, h1⟩ := bind_ok' _ _ _ h1
+    obtain ⟨b2, e2, h2⟩ := bind_ok' _ _ _ h2
+    obtain ⟨b3, e3, h3⟩ := bind_ok' _ _ _ h3
+    rw [e1] at e2 e3; injection e2 with e2; injection e3 with e3; subst e2; subst e3
+    obtain ⟨x', y', z', g1, g2, g3, g4⟩ := cmpInt_trichotomy a b1
+    rw [g1] at h1; rw [g2] at h2; rw [g3] at h3
+    injection h1 with h1; injection h2 with h2; injection h3 with h3
+    injection h1 with h1; injection h2 with h2; injection h3 with h3
+    subst h1; subst h2; subst h3; exact g4
+  have hht : ∀ (p : Except PyErr Int) (x y z : Bool),
+      cmpHt .lt p a n = .ok (.bool x) → cmpHt .eq p a n = .ok (.bool y) → cmpHt .gt p a n = .ok (.bool z) →
+      exactlyOne x y z = true := by
+    intro p x y z h1 h2 h3
+    obtain ⟨u, v, h⟩ := cmpHt_is_cmpInt p a n
+    obtain ⟨x', y', z', g1, g2, g3, g4⟩ := cmpInt_trichotomy u v
+    rw [h, g1] at h1; rw [h, g2] at h2; rw [h, g3] at h3
+    injection h1 with h1; injection h2 with h2; injection h3 with h3
+    injection h1 with h1; injection h2 with h2; injection h3 with h3
+    subst h1; subst h2; subst h3; exact g4
+  refine ⟨?_, ?_, ?_, ?_⟩ <;> intro h1 h2 h3 <;> simp only [binop, tdOp, dtOp, isCmp, if_true] at h1 h2 h3
+  · exact hdt _ x y z h1 h2 h3
+  · exact hht _ x y z h1 h2 h3
+  · exact hdt _ x y z h1 h2 h3
+  · exact hht _ x y z h1 h2 h3
 
 /-- the same answer with the operands swapped: `x < bt` is answered by bintime's reflected `>` -/
 theorem mixed_cmp_swap (a n : Int) :
